@@ -16,6 +16,7 @@ require (
 	github.com/ory/keto/proto v0.13.0-alpha.0
 	github.com/ory/x v0.0.708
 	github.com/sirupsen/logrus v1.9.3
+	github.com/spf13/pflag v1.0.6
 	google.golang.org/grpc v1.71.1
 	google.golang.org/protobuf v1.36.6
 )
@@ -137,7 +138,6 @@ require (
 	github.com/sourcegraph/syntaxhighlight v0.0.0-20170531221838-bd320f5d308e // indirect
 	github.com/spf13/cast v1.7.1 // indirect
 	github.com/spf13/cobra v1.9.1 // indirect
-	github.com/spf13/pflag v1.0.6 // indirect
 	github.com/stretchr/testify v1.10.0 // indirect
 	github.com/tidwall/gjson v1.18.0 // indirect
 	github.com/tidwall/match v1.1.1 // indirect
